@@ -160,6 +160,7 @@ type store struct {
 	inc    *Inc
 	d      *Disk
 	staged uint64 // volatile staged commit index
+	torn   func() // set while a StoreLogs batch is about to be written: persists a proper prefix of it (torn write at a crash)
 }
 
 // pre runs before every operation: liveness, scheduling point, latency, crash point,
@@ -197,6 +198,9 @@ func (s *store) pre(op string, mutating bool) error {
 	}
 	if d.sweepCrashAt != 0 && d.opCount == d.sweepCrashAt && !d.sweepAfter {
 		d.sweepCrashAt = 0
+		if s.torn != nil {
+			s.torn()
+		}
 		w.stats.fault("crash_before_disk_op")
 		w.crashNow(s.inc.node, "before "+op)
 		s.inc.checkAlive()
@@ -208,6 +212,9 @@ func (s *store) pre(op string, mutating bool) error {
 	}
 	if d.crashAtOp != 0 && d.opCount == d.crashAtOp && !d.crashAfter {
 		d.crashAtOp = 0
+		if s.torn != nil {
+			s.torn()
+		}
 		w.stats.fault("crash_before_disk_op")
 		w.crashNow(s.inc.node, "before "+op)
 		w.flt.scheduleRestart(s.inc.node)
@@ -305,12 +312,26 @@ func (s *store) StoreLogs(logs []*raft.Log) error {
 	if len(ents) > 0 {
 		rec.Min, rec.Max = ents[0].Index, ents[len(ents)-1].Index
 	}
-	if err := s.pre("StoreLogs", true); err != nil {
+	d := s.d
+	if s.w.cfg.TornBatches && s.w.cfg.StoreFlavour == FlavourPlain && len(logs) > 1 {
+		// a store that writes a batch entry by entry: a crash in the middle leaves a proper prefix of it durable
+		s.torn = func() {
+			k := 1 + s.w.ch.Choose(simrt.SDisk, len(logs)-1)
+			prec := JournalRec{Op: "StoreLogs", Ents: ents[:k], Min: ents[0].Index, Max: ents[k-1].Index}
+			s.w.or.beforeStoreLogs(s.inc, ents[:k])
+			s.persist(logs[:k])
+			s.journal(prec)
+			s.w.or.afterStoreLogs(s.inc, ents[:k])
+			s.w.stats.fault("torn_log_batch_at_crash")
+		}
+	}
+	err := s.pre("StoreLogs", true)
+	s.torn = nil
+	if err != nil {
 		rec.Err = err.Error()
 		s.journal(rec)
 		return err
 	}
-	d := s.d
 	if s.w.cfg.StoreFlavour != FlavourPlain && len(logs) > 0 && d.last != 0 && logs[0].Index != d.last+1 {
 		// gap-intolerant store (raft-wal style): appends must be contiguous.
 		err := fmt.Errorf("non-monotonic append: have last=%d, got first=%d", d.last, logs[0].Index)
@@ -319,6 +340,18 @@ func (s *store) StoreLogs(logs []*raft.Log) error {
 		return err
 	}
 	s.w.or.beforeStoreLogs(s.inc, ents)
+	s.persist(logs)
+	if s.w.cfg.StoreFlavour == FlavourCommitTracking {
+		d.commit = s.staged
+	}
+	s.journal(rec)
+	s.w.or.afterStoreLogs(s.inc, ents)
+	s.post("StoreLogs")
+	return nil
+}
+
+func (s *store) persist(logs []*raft.Log) {
+	d := s.d
 	for _, l := range logs {
 		c := *l
 		c.Data = append([]byte(nil), l.Data...)
@@ -331,13 +364,6 @@ func (s *store) StoreLogs(logs []*raft.Log) error {
 			d.last = l.Index
 		}
 	}
-	if s.w.cfg.StoreFlavour == FlavourCommitTracking {
-		d.commit = s.staged
-	}
-	s.journal(rec)
-	s.w.or.afterStoreLogs(s.inc, ents)
-	s.post("StoreLogs")
-	return nil
 }
 
 func (s *store) DeleteRange(min, max uint64) error {
